@@ -363,7 +363,9 @@ C09Sigs(F) ==
          IN IF ~ok \/ v[1].pt = SAT \/ (\E j \in 1..n : a[j].pt = SAT) THEN {}
             ELSE IF \A j \in 1..n : Abs(err(j)) <= UnitsPerTick THEN {}
             ELSE IF \A j \in 1..n : Abs(err(j) - err(1)) <= 2 * UnitsPerTick
-                 THEN {Sig("C09", "SyncPreserved", "audio", "start-offset-lost")}
+                 THEN {Sig("C09", "SyncPreserved", "audio",
+                           IF StartOf(TV) = 0 /\ StartOf(TA) = 0 /\ "elst" \notin DOMAIN TV /\ "elst" \notin DOMAIN TA
+                           THEN "no-start-offset" ELSE "start-offset-wrong")}
                  ELSE {Sig("C09", "SyncPreserved", "audio", "timeline")}
 
 (* ---- C06 (statistics part) ---- *)
